@@ -542,6 +542,13 @@ def _special_cases():
         out.append({"kind": "special", "what": "vmdk-parent-chain-cycle", "depth": depth})
     for tgt in ("pax-header", "first-header", "own-header"):
         out.append({"kind": "special", "what": "vmtar-pax-size-then-visor-offset-backwards", "target": tgt})
+    # text formats: lines built from long runs of one special character, well-formed and broken (unterminated quote, too many
+    # fields): parsing time is linear in the input (the inputs are a few KiB: a watchdog of seconds decides)
+    for fmt in ("vmdk-extent", "vmdk-kv", "vmx", "keystore", "keysafe"):
+        out.append({"kind": "special", "what": "text-stress", "fmt": fmt})
+    # two cooperating faults inside one structure family: the snapshot count of the header x every field of the first snapshot
+    # entry (a length that wraps the entry size to 0 is harmless alone, endless together with a huge count)
+    out.append({"kind": "special", "what": "qcow2-snapshot-count-x-entry-fields"})
     # extension headers (pax x / X / g, GNU long name L / long link K) at every position of a short member sequence: listing
     # terminates whatever the neighbours are
     for typ in ("x", "X", "g", "L", "K"):
@@ -806,6 +813,113 @@ def _run_special(case, ctx):
         vis = BT.hdr("d/file", 700, offset_data=target)
         raw = first + pax + vis + b"\0" * 1024 + b"D" * 1024
         return _execute(ctx, case, _seed("vmtar"), raw, subject, drv_vmtar, {})
+    if what == "text-stress":
+        import time as _time
+
+        fmt = case["fmt"]
+        chars = ["\\", '"', " ", "=", "#", "(", ")", ",", "/", ":", "%", "a", "\t", "."]
+        runs = (24, 40, 200, 5000)
+        shapes = ("ok", "unterminated", "extra-fields", "run-at-start", "run-at-end")
+
+        def build(ch, n, shape):
+            r = ch * n
+            if fmt == "vmdk-extent":
+                name = {"ok": f'"a{r}b.vmdk"', "unterminated": f'"a{r}b.vmdk', "extra-fields": f'"a{r}b.vmdk" 0 1 2 3 4 5',
+                        "run-at-start": f'"{r}b.vmdk"', "run-at-end": f'"a{r}"'}[shape]
+                return f"# Disk DescriptorFile\nversion=1\nCID=fffffffe\nparentCID=ffffffff\ncreateType=\"custom\"\nRW 16 FLAT {name}\n"
+            if fmt == "vmdk-kv":
+                v = {"ok": f'"{r}"', "unterminated": f'"{r}', "extra-fields": f'"{r}" "{r}"', "run-at-start": f'{r}"x"', "run-at-end": f'"x"{r}'}[shape]
+                return f"# Disk DescriptorFile\nversion=1\nCID=fffffffe\nparentCID=ffffffff\nddb.x = {v}\nRW 16 FLAT \"a.vmdk\" 0\n"
+            if fmt == "vmx":
+                v = {"ok": f'k = "{r}"', "unterminated": f'k = "{r}', "extra-fields": f'k = "{r}" = "{r}"', "run-at-start": f'{r}k = "v"',
+                     "run-at-end": f'k = "v"{r}'}[shape]
+                return f'.encoding = "UTF-8"\n{v}\nscsi0:0.fileName = "a.vmdk"\n'
+            if fmt == "keystore":
+                v = {"ok": f"keyId=AAAA:data1=BBBB:data2=CCCC{r}:version=1", "unterminated": f"keyId=AAAA{r}", "extra-fields": f"keyId=AAAA:{r}:data1=B:data2=C",
+                     "run-at-start": f"{r}keyId=AAAA:data1=BBBB:data2=CCCC", "run-at-end": f"keyId=AAAA:data1=BBBB:data2=CCCC:version=1{r}"}[shape]
+                return f'mode = "NONE"\nConfigEncData = "{v}"\n'
+            v = {"ok": f"vmware:key/list/(pair/(phrase/{r}/x,HMAC-SHA-1,AAAA))", "unterminated": f"vmware:key/list/(pair/(phrase/{r}",
+                 "extra-fields": f"vmware:key/list/(pair/(phrase/a/b,c,d),{r},pair/(x))", "run-at-start": f"{r}vmware:key/list/(pair/(phrase/a/b,c,d))",
+                 "run-at-end": f"vmware:key/list/(pair/(phrase/a/b,c,d)){r}"}[shape]
+            return f'encryption.keySafe = "{v}"\nencryption.data = "AAAA"\n'
+
+        def drive(text):
+            if fmt.startswith("vmdk"):
+                from dissect.hypervisor.disk.vmdk import DiskDescriptor
+
+                return DiskDescriptor.parse(text)
+            if fmt == "vmx":
+                from dissect.hypervisor.descriptor.vmx import VMX
+
+                return VMX.parse(text).disks()
+            if fmt == "keystore":
+                from dissect.hypervisor.util.envelope import KeyStore
+
+                return KeyStore.from_text(text)
+            from dissect.hypervisor.descriptor.vmx import VMX
+
+            v = VMX.parse(text)
+            return v.unlock_with_phrase("x")
+
+        only = case.get("only")
+        n = 0
+        for ch in chars:
+            for shape in shapes:
+                for run in runs:
+                    n += 1
+                    if only is not None and only != n:
+                        continue
+                    text = build(ch, run, shape)
+                    ctx.transitions += 1
+                    ctx.states += 1
+                    ctx.nontrivial += 1
+                    sub = dict(case, only=n, char=ch, shape=shape, run=run)
+                    t0 = _time.time()
+                    with ctx.watch(sub, 20):
+                        try:
+                            drive(text)
+                            ctx.outcome("returned")
+                        except (Timeout, MemoryError):
+                            raise
+                        except Exception:
+                            ctx.outcome("raised")
+                    dt = _time.time() - t0
+                    ctx.maxi("text_stress_ms", int(dt * 1000))
+                    if dt > 5:
+                        ctx.violation(sub, {"subject": subject, "kind": "superlinear-parse-time", "fmt": fmt},
+                                      {"seconds": round(dt, 2), "input_bytes": len(text), "char": repr(ch), "shape": shape, "run": run})
+                        return False
+        return True
+    if what == "qcow2-snapshot-count-x-entry-fields":
+        seed = _seed("qcow2.snapshots")
+        raw0 = seed["raw"]
+        cnt = [f for f in seed["fields"] if f[0] == "header.nb_snapshots"][0]
+        ent = [f for f in seed["fields"] if f[0].startswith("snapshot[0].")]
+        assert len(ent) >= 5
+        only = case.get("only")
+        n = 0
+        for count in (0xFFFFFFFF, 0x7FFFFFFF, 65536, 3):
+            base = raw0[:cnt[1]] + struct.pack(">I", count) + raw0[cnt[1] + 4:]
+            sub = dict(seed, raw=base, fields=ent)
+            for name, off, val in _field_faults(sub):
+                # plus the values that make id + name + extra data add up to 2^32 - 40 ... 2^32 (the entry size wraps)
+                n += 1
+                if only is not None and only != n:
+                    continue
+                data = base[:off] + val + base[off + len(val):]
+                if not _execute(ctx, dict(case, only=n, fault=[count, name, val.hex()]), seed, data, subject, drv_qcow2, {}):
+                    return False
+            for name, off, w, en, role in ent:
+                if w != 4:
+                    continue
+                for v in (0xFFFFFFD8, 0xFFFFFFD0, 0xFFFFFFE0, 0xFFFFFFF8, 0xFFFFFFC8, 0xFFFFFFD8 - 2, 0xFFFFFFD8 - 5, 0xFFFFFFD8 - 7):
+                    n += 1
+                    if only is not None and only != n:
+                        continue
+                    data = base[:off] + struct.pack(">I", v) + base[off + 4:]
+                    if not _execute(ctx, dict(case, only=n, fault=[count, name, hex(v)]), seed, data, subject, drv_qcow2, {}):
+                        return False
+        return True
     if what == "vmtar-extension-headers":
         import itertools as _it
 
